@@ -24,7 +24,7 @@ KF_FILE = os.path.join(VERIF, "KNOWN_FINDINGS.txt")
 SEM = ["small", "small-nosse"]
 WRAP = ["small-wrap", "small-nosse-wrap"]
 STRICT4 = ["small-strict", "small-nosse-strict", "small-ts-wrap-strict", "small-wrap-strict"]
-FAULT3 = ["small-wrap-strict", "small-ts-wrap-strict", "small-nosse-wrap-strict"]
+FAULT3 = ["small-wrap-strict", "small-ts-wrap-strict", "small-nosse-wrap-strict", "small-posix-wrap-strict"]
 
 
 def P(level, qc, qn, qs, tc, tn, ts, shards=16, **kw):
@@ -56,7 +56,7 @@ PLANS = {
     "C18": P("exploration", ["small-strict", "small-nosse-strict"], 2000, 300, ["small-strict", "small-nosse-strict"], 8000, 600,
              strict=True, san_to_stderr=True),
     "C19": P("exploration", SEM, 100000, 300, SEM + ["host", "host-nosse"], 100000, 600),
-    "C20": P("fault_enumeration", FAULT3, 120, 100, FAULT3, 400, 100, shards=15, strict=True, san_to_stderr=True, case_timeout=1500),
+    "C20": P("fault_enumeration", FAULT3, 120, 100, FAULT3, 400, 100, shards=16, strict=True, san_to_stderr=True, case_timeout=1500),
 }
 
 
